@@ -6,6 +6,7 @@ import (
 	"hash/fnv"
 	"runtime/debug"
 	"sort"
+	"strings"
 
 	gonnx "github.com/advancedclimatesystems/gonnx"
 	"github.com/advancedclimatesystems/gonnx/onnx"
@@ -401,7 +402,7 @@ func checkC02(c *hx.Checker) {
 	thorough := c.Tier == "thorough"
 	depth := 3
 	if thorough {
-		depth = 4
+		depth = 5
 	}
 	c.Rule = fmt.Sprintf("subjects: (i) every registered operator as a single-node model under every role assignment of its tensor inputs (caller input / initializer; for operators with > 3 tensor inputs: none, all, each single one, all-but-one as initializer), (ii) compositions ConstantOfShape->GRU.initial_h and Constant->Conv.bias->ArgMax, (iii) sample models mlp, scaler, gru (thorough: + ndm). "+
 		"history alphabet on ONE loaded Model with persistent caller tensor objects A and B (B = other values; other batch size for the sample models): Run(A), Run(B), Run(fresh copy of A), RunFail(wrong rank), RunFail(missing input), Run(state outputs of the previous Run fed back as the very same tensor objects). "+
@@ -428,6 +429,9 @@ func checkC02(c *hx.Checker) {
 		d := depth
 		if s.Name == "sample:ndm" {
 			d = 2
+		}
+		if thorough && (strings.HasPrefix(s.Name, "sample:") || strings.HasPrefix(s.Name, "comp:")) && s.Name != "sample:ndm" {
+			d = 6
 		}
 		for _, sq := range seqs(alpha, 1, d) {
 			seq := make([]int, len(sq))
